@@ -337,7 +337,7 @@ impl Prop for C11 {
         }
     }
     fn required_probes(&self, _tier: Tier) -> Vec<&'static str> {
-        vec!["xor_layout", "sparse_over_4gib", "block_over_32k", "key_len_not_8", "chunk_below_period", "zero_key", "key_len_over_256"]
+        vec!["xor_layout", "sparse_over_4gib", "block_over_32k", "key_len_not_8", "chunk_below_period", "zero_key", "key_len_over_256", "key_zero_in_first_8_bytes_only"]
     }
     fn explore(&self, item: u64, rng: &mut Rng, tier: Tier, h: &mut Harness) -> Result<(), String> {
         let mut scn = world("C11", "xor-twin", item, rng, tier);
@@ -352,11 +352,36 @@ impl Prop for C11 {
             4 => *rng.pick(&[65usize, 100, 255, 256, 257, 300, 1000, 4096, 40000]),
             _ => rng.usize(1, 64),
         };
-        let key = match rng.below(8) {
+        let mut key = match rng.below(10) {
             0 => vec![0u8; kl],
             1 => vec![rng.next() as u8; kl],
+            // structured keys: a single non-zero byte anywhere (zero prefix / zero suffix of any length),
+            // or a zero run at the front or back of an otherwise random key
+            2 => {
+                let mut k = vec![0u8; kl];
+                let at = if rng.coin() { kl - 1 } else { rng.usize(0, kl - 1) };
+                k[at] = 1 << rng.below(8);
+                k
+            }
+            3 => {
+                let mut k = rng.bytes(kl);
+                let z = rng.usize(0, kl);
+                if rng.coin() {
+                    k[..z].iter_mut().for_each(|b| *b = 0);
+                } else {
+                    k[kl - z..].iter_mut().for_each(|b| *b = 0);
+                }
+                k
+            }
             _ => rng.bytes(kl),
         };
+        if kl > 8 && rng.chance(1, 8) {
+            // first eight bytes (Bitcoin Core's width) zero, the rest not
+            key[..8].iter_mut().for_each(|b| *b = 0);
+            if key[8..].iter().all(|b| *b == 0) {
+                key[kl - 1] = 0x80;
+            }
+        }
         let mut obf = plain.clone();
         obf.xor_key = Some(Bytes(key));
         scn.layouts = vec![plain, obf];
@@ -398,6 +423,9 @@ impl Prop for C11 {
             }
             if k.0.iter().all(|b| *b == 0) {
                 st.probe("zero_key");
+            }
+            if k.0.len() > 8 && k.0[..8].iter().all(|b| *b == 0) && k.0.iter().any(|b| *b != 0) {
+                st.probe("key_zero_in_first_8_bytes_only");
             }
             if let Some(r) = scn.runs.get(1) {
                 if r.plan.chunk_blk.iter().any(|c| *c < k.0.len()) {
